@@ -178,11 +178,12 @@ trait VekMat<T>: MatX<T> + Copy {
     fn tr(self) -> Self;
     fn relayout(self) -> Self::Other;
     fn vmul(self, o: Self) -> Self;
+    fn vmul_assign(self, o: Self) -> Self;
 }
 macro_rules! impl_vekmat {
     ($($A:ident <-> $B:ident : $name:expr),+) => {$(
         impl<T> VekMat<T> for $A<T>
-        where T: Copy + Add<Output = T> + std::ops::Sub<Output = T> + Mul<Output = T> + MulAdd<T, T, Output = T>
+        where T: Copy + num_traits::Zero + Add<Output = T> + std::ops::Sub<Output = T> + Mul<Output = T> + MulAdd<T, T, Output = T>
         {
             type Other = $B<T>;
             const SIZE: &'static str = $name;
@@ -190,6 +191,7 @@ macro_rules! impl_vekmat {
             fn tr(self) -> Self { self.transposed() }
             fn relayout(self) -> $B<T> { <$B<T>>::from(self) }
             fn vmul(self, o: Self) -> Self { self * o }
+            fn vmul_assign(self, o: Self) -> Self { let mut p = self; p *= o; p }
         }
     )+};
 }
@@ -202,16 +204,20 @@ trait Inv4<T>: MatX<T> + Copy {
     fn inv_rigid_ip(&mut self);
     fn inv_affine(self) -> Self;
     fn inv_affine_ip(&mut self);
+    fn vmul(self, o: Self) -> Self;
+    fn vmul_assign(self, o: Self) -> Self;
 }
 macro_rules! impl_inv4 {
     ($($A:ident),+) => {$(
-        impl<T: Real> Inv4<T> for $A<T> {
+        impl<T: Real + MulAdd<T, T, Output = T>> Inv4<T> for $A<T> {
             fn inv(self) -> Self { self.inverted() }
             fn inv_ip(&mut self) { self.invert() }
             fn inv_rigid(self) -> Self { self.inverted_affine_transform_no_scale() }
             fn inv_rigid_ip(&mut self) { self.invert_affine_transform_no_scale() }
             fn inv_affine(self) -> Self { self.inverted_affine_transform() }
             fn inv_affine_ip(&mut self) { self.invert_affine_transform() }
+            fn vmul(self, o: Self) -> Self { self * o }
+            fn vmul_assign(self, o: Self) -> Self { let mut p = self; p *= o; p }
         }
     )+};
 }
@@ -381,9 +387,9 @@ fn det_values<T: Elem, M: VekMat<T>>(sub: &mut Sub, cfg: &Config, idx: u64) {
     let b: M = mat_of(&gb);
     let at: M = mat_of(&g_t(&ga));
     let ab: M = mat_of(&g_mul(&ga, &gb));
-    sub.saw_n(&api, 6);
-    let r = guarded(|| (a.det(), b.det(), at.det(), a.relayout().det(), ab.det(), a.vmul(b).det()));
-    let (da, db, dat, dal, dab, dvab) = match r {
+    sub.saw_n(&api, 7);
+    let r = guarded(|| (a.det(), b.det(), at.det(), a.relayout().det(), ab.det(), a.vmul(b).det(), a.vmul_assign(b).det()));
+    let (da, db, dat, dal, dab, dvab, dvab_assign) = match r {
         Ok(v) => v,
         Err(e) => {
             let v = violation(PROP, sub, &api, &ty, "panic", "determinant", format!("a={:?} b={:?}: {}", ga, gb, e), cfg.case_seed(), idx);
@@ -398,13 +404,14 @@ fn det_values<T: Elem, M: VekMat<T>>(sub: &mut Sub, cfg: &Config, idx: u64) {
         sub.inconclusive(&format!("poison:{}", p));
         return;
     }
-    let checks: [(&str, T, T); 6] = [
+    let checks: [(&str, T, T); 7] = [
         ("leibniz", da, ea),
         ("leibniz", db, eb),
         ("transpose_invariance", dat, ea),
         ("layout_change", dal, ea),
         ("multiplicative", dab, eab),
         ("multiplicative_vek_product", dvab, eab),
+        ("multiplicative_vek_product_assign (a *= b)", dvab_assign, eab),
     ];
     for (what, got, exp) in checks.iter() {
         if !got.m_eq(*exp) {
@@ -634,9 +641,9 @@ fn check_general<T: Elem, M: Inv4<T>>(sub: &mut Sub, cfg: &Config, idx: u64, wha
         let x = m.inv();
         let mut c = m;
         c.inv_ip();
-        (x, c)
+        (x, c, [m.vmul(x), x.vmul(m), m.vmul_assign(x), x.vmul_assign(m)])
     });
-    let (x, xip) = match r {
+    let (x, xip, vprods) = match r {
         Ok(v) => v,
         Err(e) => {
             let _ = take_poison();
@@ -674,6 +681,14 @@ fn check_general<T: Elem, M: Inv4<T>>(sub: &mut Sub, cfg: &Config, idx: u64, wha
         );
         sub.violated(v);
         return;
+    }
+    // the same two-sided statement through vek's own product, in both operator forms
+    for (k, form) in ["M * inv(M)", "inv(M) * M", "{ p = M; p *= inv(M) }", "{ p = inv(M); p *= M }"].iter().enumerate() {
+        if let Some((i, j)) = g_diff(&grid_of(&vprods[k]), &id) {
+            let v = violation(PROP, sub, "Mat4::inverted", &ty, "wrong_value", what, format!("m={:?} (det {:?}): vek's own product {} is not the identity at ({},{}): {:?}", g, d, form, i, j, grid_of(&vprods[k])), cfg.case_seed(), idx);
+            sub.violated(v);
+            return;
+        }
     }
     if let Some((i, j)) = g_diff(&grid_of(&xip), &xg) {
         let v = violation(PROP, sub, "Mat4::invert", &ty, "wrong_value", "differs_from_inverted", format!("m={:?}: invert() gives {:?} at ({},{}) but inverted() gives {:?}", g, xip.get(i, j), i, j, x.get(i, j)), cfg.case_seed(), idx);
@@ -865,7 +880,7 @@ fn affine_case(sub: &mut Sub, cfg: &Config, idx: u64) {
 
 // ------------------------------------------------------------------ float tier
 
-trait Fl: Real + std::fmt::Debug {
+trait Fl: Real + MulAdd<Self, Self, Output = Self> + std::fmt::Debug {
     const NAME: &'static str;
     const EPS: f64;
     fn of(x: f64) -> Self;
